@@ -819,7 +819,7 @@ pub fn partial_p0_r4_l5_20_1() {
     partial_step::<0, 4, 5, 20, 1>()
 }
 
-//@ harness props=C05,C15,C11 tier=quick unwind=22 unwindset=process_mode:7 mem_gb=4 timeout=600 native=no opt_covers=commit_and_carry,nothing_committed
+//@ harness props=C05,C15,C11,C13 tier=quick unwind=22 unwindset=process_mode:7 mem_gb=4 timeout=600 native=no opt_covers=commit_and_carry,nothing_committed
 //@ bound: one process_stream call: carry 3 bytes, reader 6 bytes, symbol lengths 5,20,1(,20); contents/range/code symbolic; abstract symbols
 #[cfg_attr(kani, kani::proof)]
 #[cfg_attr(kani, kani::stub(std::fmt::format, crate::verif_common::stub_format))]
@@ -829,7 +829,7 @@ pub fn partial_p3_r6_l5_20_1() {
     partial_step::<3, 6, 5, 20, 1>()
 }
 
-//@ harness props=C05,C15,C11 tier=quick unwind=22 unwindset=process_mode:7 mem_gb=4 timeout=600 native=no opt_covers=commit_and_carry,nothing_committed
+//@ harness props=C05,C15,C11,C13 tier=quick unwind=22 unwindset=process_mode:7 mem_gb=4 timeout=600 native=no opt_covers=commit_and_carry,nothing_committed
 //@ bound: one process_stream call: carry 19 bytes, reader 2 bytes, symbol lengths 20,3,1(,20); contents/range/code symbolic; abstract symbols
 #[cfg_attr(kani, kani::proof)]
 #[cfg_attr(kani, kani::stub(std::fmt::format, crate::verif_common::stub_format))]
@@ -879,7 +879,7 @@ pub fn partial_p1_r7_l9_1_1() {
     partial_step::<1, 7, 9, 1, 1>()
 }
 
-//@ harness props=C05,C15,C11 tier=quick unwind=22 unwindset=process_mode:7 mem_gb=4 timeout=600 native=no opt_covers=commit_and_carry,nothing_committed
+//@ harness props=C05,C15,C11,C13 tier=quick unwind=22 unwindset=process_mode:7 mem_gb=4 timeout=600 native=no opt_covers=commit_and_carry,nothing_committed
 //@ bound: one process_stream call: carry 0 bytes, reader 8 bytes, symbol lengths 20,1,1(,20); contents/range/code symbolic; abstract symbols
 #[cfg_attr(kani, kani::proof)]
 #[cfg_attr(kani, kani::stub(std::fmt::format, crate::verif_common::stub_format))]
@@ -939,7 +939,7 @@ pub fn partial_p5_r0_l6_1_1() {
     partial_step::<5, 0, 6, 1, 1>()
 }
 
-//@ harness props=C05,C15,C11 tier=quick unwind=22 unwindset=process_mode:7 mem_gb=4 timeout=600 native=no opt_covers=commit_and_carry,nothing_committed
+//@ harness props=C05,C15,C11,C13 tier=quick unwind=22 unwindset=process_mode:7 mem_gb=4 timeout=600 native=no opt_covers=commit_and_carry,nothing_committed
 //@ bound: one process_stream call: carry 5 bytes, reader 0 bytes, symbol lengths 5,1,1(,20); contents/range/code symbolic; abstract symbols
 #[cfg_attr(kani, kani::proof)]
 #[cfg_attr(kani, kani::stub(std::fmt::format, crate::verif_common::stub_format))]
@@ -979,7 +979,7 @@ pub fn partial_p0_r1_l2_1_1() {
     partial_step::<0, 1, 2, 1, 1>()
 }
 
-//@ harness props=C05,C15,C11 tier=quick unwind=22 unwindset=process_mode:7 mem_gb=4 timeout=600 native=no opt_covers=commit_and_carry,nothing_committed
+//@ harness props=C05,C15,C11,C13 tier=quick unwind=22 unwindset=process_mode:7 mem_gb=4 timeout=600 native=no opt_covers=commit_and_carry,nothing_committed
 //@ bound: one process_stream call: carry 19 bytes, reader 8 bytes, symbol lengths 20,7,1(,20); contents/range/code symbolic; abstract symbols
 #[cfg_attr(kani, kani::proof)]
 #[cfg_attr(kani, kani::stub(std::fmt::format, crate::verif_common::stub_format))]
@@ -1009,7 +1009,7 @@ pub fn partial_p18_r8_l20_6_2() {
     partial_step::<18, 8, 20, 6, 2>()
 }
 
-//@ harness props=C05,C15,C11 tier=quick unwind=22 unwindset=process_mode:7 mem_gb=4 timeout=600 native=no opt_covers=commit_and_carry,nothing_committed
+//@ harness props=C05,C15,C11,C13 tier=quick unwind=22 unwindset=process_mode:7 mem_gb=4 timeout=600 native=no opt_covers=commit_and_carry,nothing_committed
 //@ bound: one process_stream call: carry 7 bytes, reader 8 bytes, symbol lengths 2,19,1(,20); contents/range/code symbolic; abstract symbols
 #[cfg_attr(kani, kani::proof)]
 #[cfg_attr(kani, kani::stub(std::fmt::format, crate::verif_common::stub_format))]
